@@ -1,6 +1,7 @@
 import QecVerif.Model.Wire
 import QecVerif.Model.Smwpm
 import QecVerif.Model.SmwpmTp
+import QecVerif.Model.SmwpmWeight
 namespace Qec.Drv
 open Qec Qec.Wire Qec.Smwpm Qec.Dec
 
@@ -108,6 +109,41 @@ def showRunOut : Except RunErr RunOut → String
   | .error _ => "raise"
   | .ok o => s!"{o.errorWeight}:{showBool o.success}:{showOptIntList o.lc}:{showOptIntList o.cv}"
 
+/-! ### edge weights (Model/SmwpmWeight.lean) -/
+open Qec.Smwpm.Weight in
+def parsePC? : Char → Option PC
+  | 'n' => some .none | 'z' => some .zero | 'o' => some .one | 'm' => some .mid | _ => none
+
+/-- context `e p q z`: eta-is-None bit, class of p, class of q, `p == q` bit — e.g. `1mm1` -/
+def parseCtx? (s : String) : Option Weight.Ctx :=
+  match s.toList with
+  | [e, p, q, z] => do
+      let e ← parseBool? (String.singleton e); let p ← parsePC? p; let q ← parsePC? q
+      let z ← parseBool? (String.singleton z); pure ⟨e, p, q, z⟩
+  | _ => none
+
+def showDErr : Weight.DErr → String
+  | .orthogonal => "raise:ValueError:orthogonal" | .diagInf => "raise:ValueError:diagInf"
+  | .timeW => "raise:ValueError:timeW" | .parW => "raise:ValueError:parW" | .diagW => "raise:ValueError:diagW"
+  | .zeroDiv => "raise:ZeroDivisionError" | .noCluster => "raise:ValueError:noCluster"
+  | .emptyMin => "raise:ValueError:emptyMin"
+
+def showSteps : Except Weight.DErr Weight.Steps → String
+  | .error e => showDErr e
+  | .ok s => s!"{s.time},{s.par},{s.diag}"
+
+def showRatE : Except Weight.DErr Rat → String
+  | .error e => showDErr e
+  | .ok r => s!"{r.num}/{r.den}"
+
+def showIntE : Except Weight.DErr Int → String
+  | .error e => showDErr e
+  | .ok r => s!"{r}"
+
+/-- optional cluster: `N` = None, `.` = empty list, else `t,x,y;…` -/
+def parseOptCluster? (s : String) : Option (Option (List TIdx)) :=
+  if s == "N" then some none else if s == "." then some (some []) else ((s.splitOn ";").mapM parseT3?).map some
+
 end SmwpmW
 open SmwpmW
 
@@ -157,6 +193,32 @@ def smwpm : List String → Option String
       let fl ← parseFlags? fl; let r ← parseInt? r; let c ← parseInt? c; let rows ← parseMat? rows
       let ms ← parseMatches? ms; let cms ← parseCMatches? cms
       pure s!"pm={showBool (matchingsOk fl r c rows ms cms)} {showEx (fun v => "rec=" ++ showBits v) (decode r c rows.length ms cms)}"
+  -- `_distance`: step counts and the evaluation with the three step weights given as integers
+  | ["dist", r, c, t, ctx, wt, wp, wd, a, b] => do
+      let r ← parseInt? r; let c ← parseInt? c; let t ← parseInt? t; let ctx ← parseCtx? ctx
+      let wt ← parseInt? wt; let wp ← parseInt? wp; let wd ← parseInt? wd
+      let a ← parseNode? a; let b ← parseNode? b
+      pure s!"st={showSteps (Weight.planarSteps r c t a b)} d={showRatE (Weight.planarDistance r c t ctx wt wp wd a b)}"
+  | ["tdist", r, c, t, ctx, wt, wp, wd, a, b] => do
+      let r ← parseInt? r; let c ← parseInt? c; let t ← parseInt? t; let ctx ← parseCtx? ctx
+      let wt ← parseInt? wt; let wp ← parseInt? wp; let wd ← parseInt? wd
+      let a ← parseNode? a; let b ← parseNode? b
+      pure s!"st={showSteps (Weight.toricSteps r c t a b)} d={showRatE (Weight.toricDistance r c t ctx wt wp wd a b)}"
+  -- the `_add_edge` filter with the flags derived from the same context
+  | ["edgeok", ctx, a, b] => do
+      let ctx ← parseCtx? ctx; let a ← parseNode? a; let b ← parseNode? b
+      pure (showBool (addEdgeOk ctx.flags a b))
+  -- `_cluster_distance`
+  | ["cdist", t, av, bv, ca, cb] => do
+      let t ← parseInt? t; let av ← parseBool? av; let bv ← parseBool? bv
+      let ca ← parseOptCluster? ca; let cb ← parseOptCluster? cb
+      pure (showIntE (Weight.planarClusterDistance t av bv ca cb))
+  | ["tcdist", r, c, t, ca, cb] => do
+      let r ← parseInt? r; let c ← parseInt? c; let t ← parseInt? t
+      let ca ← parseOptCluster? ca; let cb ← parseOptCluster? cb
+      match ca, cb with
+      | some ca, some cb => pure (showIntE (Weight.toricClusterDistance r c t ca cb))
+      | _, _ => none
   -- rotated toric decoder
   | ["tnodes", r, c, rows] => do
       let r ← parseInt? r; let c ← parseInt? c; let rows ← parseMat? rows
